@@ -253,7 +253,15 @@ impl Report {
     }
     pub fn finding(&mut self, f: Finding) {
         self.findings_total += 1;
-        if self.findings.len() < 60 {
+        // keep a bounded number of witnesses *per property and kind*, so that a flood of one kind
+        // cannot push out the only witness of another
+        let same = self
+            .findings
+            .iter()
+            .filter(|g| g.property == f.property && g.kind == f.kind)
+            .count();
+        let of_property = self.findings.iter().filter(|g| g.property == f.property).count();
+        if same < 4 && of_property < 24 {
             self.findings.push(f);
         }
     }
